@@ -38,3 +38,36 @@ Definition shift_tok (p : nat) (t : ptok) : ptok :=
 (* span of a non-empty token segment *)
 Definition seg_start (seg : list ptok) : nat := match seg with t :: _ => tstart t | [] => 0 end.
 Definition seg_end (seg : list ptok) : nat := match seg with t :: r => tend (last r t) | [] => 0 end.
+
+(* the same for the nodes of executable definitions *)
+Definition shift_arg (p : nat) (a : argument) : argument :=
+  Arg (shift_name p (a_name a)) (shift_value p (a_val a)) (shift_loc p (a_loc a)).
+Definition shift_dir (p : nat) (d : directive) : directive :=
+  Dir (shift_name p (d_name d)) (map (shift_arg p) (d_args d)) (shift_loc p (d_loc d)).
+
+Fixpoint shift_sel (p : nat) (s : selection) : selection :=
+  match s with
+  | SField al n args dirs sl sub l =>
+      SField (option_map (shift_name p) al) (shift_name p n) (map (shift_arg p) args)
+             (map (shift_dir p) dirs) (option_map (shift_loc p) sl) (map (shift_sel p) sub) (shift_loc p l)
+  | SSpread n dirs l => SSpread (shift_name p n) (map (shift_dir p) dirs) (shift_loc p l)
+  | SInline tc dirs ssl sub l =>
+      SInline (option_map (shift_ty p) tc) (map (shift_dir p) dirs) (shift_loc p ssl)
+              (map (shift_sel p) sub) (shift_loc p l)
+  end.
+
+Definition shift_var_def (p : nat) (v : var_def) : var_def :=
+  VarDef (shift_name p (vd_var v)) (shift_loc p (vd_var_loc v)) (shift_ty p (vd_type v))
+         (option_map (shift_value p) (vd_default v)) (map (shift_dir p) (vd_dirs v)) (shift_loc p (vd_loc v)).
+
+(* operations and fragments (other definitions are left alone) *)
+Definition shift_exec_def (p : nat) (d : definition) : definition :=
+  match d with
+  | DOperation k n vds dirs ssl sels l =>
+      DOperation k (option_map (shift_name p) n) (map (shift_var_def p) vds) (map (shift_dir p) dirs)
+                 (shift_loc p ssl) (map (shift_sel p) sels) (shift_loc p l)
+  | DFragment n vds tc dirs ssl sels l =>
+      DFragment (shift_name p n) (map (shift_var_def p) vds) (shift_ty p tc) (map (shift_dir p) dirs)
+                (shift_loc p ssl) (map (shift_sel p) sels) (shift_loc p l)
+  | _ => d
+  end.
